@@ -398,6 +398,9 @@ KIND_TO_OP = {
     'SOFTMAX': 'SOFTMAX', 'LOGISTIC': 'LOGISTIC', 'TANH': 'TANH',
     'GELU': 'GELU', 'RSQRT': 'RSQRT', 'CONCATENATION': 'CONCATENATION',
     'CONCAT_SAME': 'CONCATENATION', 'SPLIT': 'SPLIT',
+    'AVERAGE_POOL_2D_RELU': 'AVERAGE_POOL_2D',
+    'AVERAGE_POOL_2D_RELU6': 'AVERAGE_POOL_2D', 'FC_RELU': 'FULLY_CONNECTED',
+    'ADD_RELU6': 'ADD',
 }
 PROPAGATION = ['chain_reshape_reshape', 'softmax_reshape',
                'tensor_feeds_concat_and_other', 'fc_fc', 'chain_tanh_fc',
